@@ -4,6 +4,7 @@ import QG.Spec.Register
 import QG.Spec.Kron2
 import QG.Lemmas.Frames
 import QG.Lemmas.FrameInvariant
+import QG.Lemmas.LayerSim
 
 /-!
 # C03 — with noise switched off the simulator reproduces the ideal circuit
@@ -27,10 +28,15 @@ the moduli of the ideal circuit's amplitudes at every basis state.  Marginalisat
 key order are C14 (`values_marginal`, `keys_exact`), the Qiskit ordering after `fix_counts` is C16, the calls the
 simulator issues for a circuit are C08.
 
-`_partial`: the layered classes (`Circuit`, `Standard/Efficient/OneCircuit`) place the same matrices in layers; that a
-layer list computes the same operator as the item list is C01 (`binary_layer_spec`, `layer_eq_prod_embed`), and that
-they place the *same* matrices is the C08 correspondence — the composed statement for them is not restated here and is
-exercised end to end by the Qiskit oracle of the check.  "Ideal circuit" means the standard matrices of
+`noise_free_run_spec_layered` / `noise_free_pipeline_layered` — the same for the layered classes
+`Standard/Efficient/OneCircuit`: the calls the simulator's layered branch issues are in row order
+(`rowOrdered_callsLayered`), a row-ordered call list drives the layered machine and the index-based machine to related
+states (`QG.Lemmas.LayerSim.run_sim`: same phases, and the layers read with a qubit offset — the `layersItems` of C01 —
+are the registered item list), so the frame invariant transfers.  That every layer-based backend applies exactly the
+product of those items is C01 (`standard_spec`, `efficient_spec`, `ones_spec`, `binary_layer_spec`).
+
+`_partial`: the legacy fixed-depth `Circuit` class (a grid of columns instead of a list of layers) is not lifted; it is
+exercised end to end by the Qiskit oracle of the check, and its placements by the C08 / C11 correspondence.  "Ideal circuit" means the standard matrices of
 `QG/Lemmas/Frames.lean` (`stdX, stdSX, stdCX, stdECR`, `rz θ = diag(e^{-iθ/2}, e^{iθ/2})`), which the check compares with
 Qiskit's on every run.
 -/
@@ -379,5 +385,136 @@ example : (∀ c ∈ ([.Rz 2 (1/3), .CNOT 2 0 [], .SX 0 []] : List (CircCall ℝ
   intro c hc
   simp at hc
   rcases hc with rfl | rfl | rfl <;> simp [WFCall]
+
+/-! ## the layered classes (Standard / Efficient / OneCircuit)
+
+`QG.Lemmas.LayerSim`: the layers of the object, read with a qubit offset the way the layer-based backends read them
+(placeholder `1` = width 0, a 2x2 entry at offset `q` = `[M, [q]]`, a 4x4 entry at offset `q` = `[G, [q, q+1]]` — the
+`layersItems` of C01, whose `binary_layer_spec` / `standard_spec` / `efficient_spec` / `ones_spec` say that every
+layer-based backend applies exactly the product of these items), are the item list the index-based class registers for
+the same calls, provided the calls are issued in row order — which is how `_apply_gates_on_circuit` issues them. -/
+
+open QG.Lemmas.LayerSim in
+/-- the operator of the layers of a layered circuit object -/
+noncomputable def simOpL (n : Nat) (st : LayerState ℝ) : Op ℂ n :=
+  (GA n).sem ((allItems st).map (interp frameSys))
+
+open QG.Lemmas.LayerSim in
+/-- **C03 for the layered classes, call level**: every row-ordered, well-formed sequence of build calls on a new
+layered circuit object leaves layers whose operator has, on every initial state and at every basis state, the modulus
+of the ideal circuit's amplitude -/
+theorem noise_free_run_spec_layered (n : Nat) (hn : 0 < n) (cs : List (CircCall ℝ)) (hwf : ∀ c ∈ cs, WFCall n c)
+    (hrow : RowOrdered n 0 cs) (st' : LayerState ℝ)
+    (h : foldE (LayerState.step P) (LayerState.init P n) cs = .ok st') (ψ0 : State ℂ n) (x : BV n) :
+    ‖(simOpL n st' ψ0) x‖ = ‖(trueOps n cs ψ0) x‖ := by
+  obtain ⟨b', hb', hr, _⟩ := run_sim P n cs (LayerState.init P n) st' (BinState.init P n) (rel_init P n hn) hrow h
+  have := noise_free_run_spec_binary n cs hwf b' hb' ψ0 x
+  unfold simOp at this
+  rw [hr.items] at this
+  exact this
+
+open QG.Lemmas.LayerSim in
+/-- rows in range for the ops of the layered branch (in addition to `LWF`: rz rows) -/
+def LWF' (n : Nat) : Op ℝ → Prop
+  | .rz q _ => q < n
+  | op => LWF n op
+
+open QG.Lemmas.LayerSim in
+theorem wf_layerLoop (n : Nat) (hit : Nat → Option (List (CircCall ℝ)))
+    (h : ∀ k, k < n → ∀ cs, hit k = some cs → ∀ c ∈ cs, WFCall n c) : ∀ c ∈ layerLoop n hit, WFCall n c := by
+  intro c hc
+  unfold layerLoop at hc
+  obtain ⟨k, hk, hck⟩ := List.mem_flatMap.mp hc
+  have hkn : k < n := List.mem_range.mp hk
+  cases hh : hit k with
+  | none => simp [hh] at hck; subst hck; exact hkn
+  | some cs => simp [hh] at hck; exact h k hkn cs hh c hck
+
+open QG.Lemmas.LayerSim in
+theorem wf_callsLayered (n : Nat) (data : List (Op ℝ)) (hwf : ∀ op ∈ data, LWF' n op) :
+    ∀ c ∈ callsLayered n data, WFCall n c := by
+  intro c hc
+  unfold callsLayered at hc
+  rcases List.mem_append.mp hc with hc | hc
+  · obtain ⟨op, hop, hcop⟩ := List.mem_flatMap.mp hc
+    have hw := hwf op hop
+    cases op with
+    | rz q th => simp [callsLayeredOp] at hcop; subst hcop; exact hw
+    | sx q =>
+      refine wf_layerLoop n _ ?_ c hcop
+      intro k hk cs hcs c hc
+      by_cases hkq : k = q <;> simp [hkq] at hcs
+      subst hcs; simp at hc; subst hc; exact hkq ▸ hw
+    | x q =>
+      refine wf_layerLoop n _ ?_ c hcop
+      intro k hk cs hcs c hc
+      by_cases hkq : k = q <;> simp [hkq] at hcs
+      subst hcs; simp at hc; subst hc; exact hkq ▸ hw
+    | delay q d =>
+      refine wf_layerLoop n _ ?_ c hcop
+      intro k hk cs hcs c hc
+      by_cases hkq : k = q <;> simp [hkq] at hcs
+      subst hcs; simp at hc; subst hc; exact hkq ▸ hw
+    | cx a t =>
+      refine wf_layerLoop n _ ?_ c hcop
+      intro k hk cs hcs c hc
+      obtain ⟨h1, h2, h3⟩ := hw
+      by_cases hka : k = a
+      · simp [hka] at hcs; subst hcs; simp at hc; subst hc
+        exact ⟨h1, h2, by omega⟩
+      · by_cases hkt : k = t
+        · rw [if_neg hka, if_pos hkt] at hcs
+          injection hcs with hcs
+          subst hcs; simp at hc
+        · simp [hka, hkt] at hcs
+    | ecr a t =>
+      refine wf_layerLoop n _ ?_ c hcop
+      intro k hk cs hcs c hc
+      obtain ⟨h1, h2, h3⟩ := hw
+      by_cases hka : k = a
+      · simp [hka] at hcs; subst hcs; simp at hc; subst hc
+        exact ⟨h1, h2, by omega⟩
+      · by_cases hkt : k = t
+        · rw [if_neg hka, if_pos hkt] at hcs
+          injection hcs with hcs
+          subst hcs; simp at hc
+        · simp [hka, hkt] at hcs
+    | barrier qs => simp [callsLayeredOp] at hcop
+    | measure q cl => simp [callsLayeredOp] at hcop
+  · obtain ⟨k, hk, rfl⟩ := List.mem_map.mp hc
+    exact List.mem_range.mp hk
+
+open QG.Lemmas.LayerSim in
+/-- **C03 for the layered classes, pipeline level**: for every register size and every preprocessed native circuit
+whose rows are in range and whose two-qubit gates act on adjacent rows (the domain of the layered classes), the calls
+the simulator's layered branch issues (`callsLayered`, C08) run on a new layered circuit object without error, end on a
+layer boundary, and leave layers whose operator reproduces the ideal circuit's Born probabilities -/
+theorem noise_free_pipeline_layered (n : Nat) (hn : 0 < n) (data : List (Op ℝ)) (hwf : ∀ op ∈ data, LWF' n op)
+    (st' : LayerState ℝ) (h : foldE (LayerState.step P) (LayerState.init P n) (callsLayered n data) = .ok st')
+    (ψ0 : State ℂ n) (x : BV n) :
+    st'.s = 0 ∧ ‖(simOpL n st' ψ0) x‖ = ‖(trueOps n (callsLayered n data) ψ0) x‖ := by
+  have hl : ∀ op ∈ data, LWF n op := by
+    intro op hop
+    have := hwf op hop
+    cases op <;> first | exact this | trivial
+  obtain ⟨hrow, hend⟩ := rowOrdered_callsLayered n data hl
+  refine ⟨?_, noise_free_run_spec_layered n hn _ (wf_callsLayered n data hwf) hrow st' h ψ0 x⟩
+  obtain ⟨_, _, _, hs⟩ := run_sim P n _ (LayerState.init P n) st' (BinState.init P n) (rel_init P n hn) hrow h
+  rw [hs]; exact hend
+
+open QG.Lemmas.LayerSim in
+/-- non-vacuity: a reversed CNOT on rows (1,0) after an rz, then an sx on row 2, is in the domain (`LWF'`), the layered
+machine runs the issued calls and ends on a layer boundary; the layers read as the expected items (the reversed CNOT as
+`[G, [0, 1]]`, identities on the idle rows, the read-out layer last) -/
+example :
+    (foldE (LayerState.step intPhase) (LayerState.init intPhase 3) (callsLayered 3 [.rz 1 5, .cx 1 0, .sx 2])).map
+      (fun st => ((allItems st).map (fun it => (it.gate.map (·.method), it.i, it.j)), st.s))
+    = .ok ([(some "CNOT_inv", 0, 1), (none, 2, -1), (none, 0, -1), (none, 1, -1), (some "SX", 2, -1),
+            (some "bitflip", 0, -1), (some "bitflip", 1, -1), (some "bitflip", 2, -1)], 0) := by rfl
+
+example : ∀ op ∈ ([.rz 1 5, .cx 1 0, .sx 2] : List (Op ℝ)), LWF' 3 op := by
+  intro op hop
+  simp at hop
+  rcases hop with rfl | rfl | rfl <;> simp [LWF', QG.Lemmas.LayerSim.LWF]
 
 end QG.C03
